@@ -1,10 +1,23 @@
 /-
 C20 — property theorems (every `theorem` here is a proof obligation, axiom-audited by `bin/check C20`).
-Helper lemmas: Kap/Proofs/C20*.lean.
+Helper lemmas: Kap/Proofs/C20*.lean. Model: Kap/Model/C20.lean (transcription of auth/auth.go and
+services/httpd/handler.go, tables regenerated from the source into Kap/Gen/C20.lean). Spec: Kap/Spec/C20.lean.
+
+Statement (properties.jsonl): with authentication enabled, a request is served only with valid credentials,
+and a non-admin user may perform it only if the privilege required by the HTTP method is granted on the
+closest ancestor-or-self of the normalised resource path that carries a grant; path tricks ('..', duplicate or
+trailing slashes) never widen access, writes are additionally checked against the target database, and
+distinct database names never map to the same resource.
+
+All theorems quantify over ALL strings, tables, accounts, requests (no size bound). The last clause is FALSE of
+the code (finding `db-collision`): the full statement is `database_resource_injective_stmt`, its negation is
+proved (`database_resource_not_injective`), the collisions are characterised exactly
+(`database_resource_collisions_exactly`) and injectivity is proved where it holds
+(`database_resource_injective_partial`).
 -/
-import Kap.Spec.C20
+import Kap.Proofs.C20Bounds
 namespace Kap.Props.C20
-open Kap.C20
+open Kap.C20 Kap.C20.Spec
 
 /-! ### The regenerated tables say what the statement says -/
 
@@ -12,11 +25,309 @@ def caseKnown : Gen.MethodCase → Bool
   | .priv _ _ => true
   | .unknown _ => false
 
-/-- The translator recognised every shape it looked at in auth.go / handler.go (fails closed otherwise). -/
+/-- The translator recognised every shape it looked at in auth.go / handler.go (it fails closed: an
+unrecognised shape lands in `Gen.problems` or as an `unknown` case and this theorem stops checking). -/
 theorem gen_recognised :
     Gen.problems = [] ∧ Gen.earlyAllowShape = .noPrivilegesOrAdmin ∧ Gen.authorizedShape = .andNonZeroOrEqAll ∧
-    Gen.dbReplaceOld = ['/'] ∧ Gen.dbReplaceNew = ['_'] ∧
-    Gen.methodCases.all caseKnown = true := by
+    Gen.dbReplaceOld = ['/'] ∧ Gen.dbReplaceNew = ['_'] ∧ Gen.methodCases.all caseKnown = true ∧
+    Gen.authMethods.length = 3 := by
   decide
+
+/-- The privilege constants, resource roots and the method → privilege switch of the SOURCE are the ones the
+statement talks about: HEAD/OPTIONS need nothing, GET read, POST/PATCH/PUT write, DELETE delete, any other
+method is refused. -/
+theorem gen_matches_statement :
+    (noPriv, readPriv, writePriv, deletePriv, allPriv) = (pNone, pRead, pWrite, pDelete, pAll) ∧
+    Gen.apiRootResource = "/api".toList ∧ Gen.databaseRootResource = "/database".toList ∧
+    Gen.basePath = "/kapacitor/v1".toList ∧ Gen.subscriptionUser = subscriber ∧
+    allowedMethods.all tableOK = true ∧
+    requiredPrivilege "TRACE".toList = .unknownMethod ∧ requiredFor "TRACE".toList = none ∧
+    requiredPrivilege "get".toList = .priv readPriv := by
+  decide
+
+/-! ### Path normalisation -/
+
+/-- `path.Clean` (as modelled) is idempotent — for every string, rooted or not. -/
+theorem clean_idempotent (p : Path) : clean (clean p) = clean p := clean_idempotent' p
+
+/-- The cleaned form of a rooted path is THE canonical spelling of the node it denotes: "/" followed by the
+node's names joined with single slashes, every name non-empty, not ".", not "..", without '/'. -/
+theorem clean_is_canonical (p : Path) (n : Node) (h : nodeOf p = some n) :
+    clean p = '/' :: join n ∧ ∀ s ∈ n, s ≠ [] ∧ s ≠ ['.'] ∧ s ≠ ['.', '.'] ∧ '/' ∉ s := by
+  obtain ⟨hn, hc⟩ := nodeOf_normal p n h
+  exact ⟨hc, fun s hs => ⟨(hn s hs).1.1, (hn s hs).1.2.1, (hn s hs).1.2.2, (hn s hs).2⟩⟩
+
+/-- The code's left-to-right stack machine computes the node the statement's right-to-left reading defines
+(two different algorithms agree on every element list). -/
+theorem clean_computes_node (segs : List Seg) : cleanSegs true segs = (resolveRev 0 segs.reverse).reverse :=
+  cleanSegs_eq_resolve segs
+
+/-- A relative path stays relative, a rooted one rooted (so a relative grant can never match a request). -/
+theorem clean_preserves_rootedness (p : Path) : isAbs (clean p) = isAbs p := isAbs_clean p
+
+/-- `path.Dir` of a canonical path drops exactly its last name (the step of the loop). -/
+theorem dir_drops_last (init : List Seg) (last : Seg) (h : NormalSegs (init ++ [last])) :
+    dir ('/' :: join (init ++ [last])) = '/' :: join init := dir_canonical init last h
+
+/-! ### The decision -/
+
+/-- **decision_on_clean_path**: for EVERY user table (also one not built by `NewUser`), resource and
+privilege, the decision is the decision on the cleaned resource. -/
+theorem decision_on_clean_path (u : User) (resource : Path) (want : Nat) :
+    authorizeAction u resource want = authorizeAction u (clean resource) want := by
+  unfold authorizeAction
+  rw [isAbs_clean, clean_idempotent']
+
+/-- **Path tricks never widen (or narrow) access**: two spellings of the same node — extra or trailing slashes,
+"." elements, "x/.." detours, ".." above the root — get the same decision from every user table. -/
+theorem path_tricks_never_widen (u : User) (p q : Path) (want : Nat) (h : nodeOf p = nodeOf q) :
+    authorizeAction u p want = authorizeAction u q want := by
+  cases hp : nodeOf p with
+  | none =>
+    have hq : nodeOf q = none := by rw [← h, hp]
+    have ap : isAbs p = false := by
+      cases e : isAbs p with
+      | false => rfl
+      | true => obtain ⟨cs, rfl⟩ := (isAbs_iff p).mp e; rw [nodeOf_abs] at hp; cases hp
+    have aq : isAbs q = false := by
+      cases e : isAbs q with
+      | false => rfl
+      | true => obtain ⟨cs, rfl⟩ := (isAbs_iff q).mp e; rw [nodeOf_abs] at hq; cases hq
+    unfold authorizeAction
+    simp [ap, aq]
+  | some n =>
+    have hq : nodeOf q = some n := by rw [← h, hp]
+    rw [decision_on_clean_path u p, decision_on_clean_path u q, (nodeOf_normal p n hp).2, (nodeOf_normal q n hq).2]
+
+/-- **nearest_grant_only**: for every account (admin flag + the grant list handed to `NewUser`), resource and
+privilege, `AuthorizeAction` answers exactly: allow for `NoPrivileges`/admin; "invalid" for a resource that is
+not rooted; otherwise the mask test on the grant of the NEAREST ancestor-or-self that carries one — and
+nothing else in the table matters; deny when no ancestor carries a grant. -/
+theorem nearest_grant_only (a : Account) (resource : Path) (want : Nat) :
+    authorizeAction a.user resource want =
+      if want = noPriv ∨ a.admin = true then .allow
+      else match nodeOf resource with
+        | none => .invalid
+        | some n =>
+          match nearestGrant a.grants n with
+          | some (_, ps) => if authorized (orMask ps) want then .allow else .deny
+          | none => .deny :=
+  authorizeAction_eq_nearest a resource want
+
+/-- **The statement's bounds**: allowed ⇒ the wanted privilege (or `all`) is listed on the nearest granted
+ancestor ("only if"), and listed there (or the list is just `all`) ⇒ allowed. Tables and the wanted privilege
+range over the five declared privileges. -/
+theorem decision_within_bounds (a : Account) (resource : Path) (want : Nat)
+    (hv : ∀ g ∈ a.grants, g.2.all validPriv = true) (hw : validPriv want = true) :
+    (authorizeAction a.user resource want = .allow → mayAllow a resource want = true) ∧
+    (mustAllow a resource want = true → authorizeAction a.user resource want = .allow) :=
+  ⟨allow_mayAllow a resource want hv hw, mustAllow_allow a resource want hw⟩
+
+/-- The spec oracle the driver evaluates on the implementation's answers accepts the model's answer. -/
+theorem model_passes_oracle (a : Account) (resource : Path) (want : Nat)
+    (hv : ∀ g ∈ a.grants, g.2.all validPriv = true) (hw : validPriv want = true) :
+    judgeDecision a resource want (authorizeAction a.user resource want == .allow) = none := by
+  have hb := decision_within_bounds a resource want hv hw
+  unfold judgeDecision
+  cases hd : (authorizeAction a.user resource want == Decision.allow) with
+  | true =>
+    have : authorizeAction a.user resource want = .allow := by simpa using hd
+    simp [hb.1 this]
+  | false =>
+    have hne : authorizeAction a.user resource want ≠ .allow := by simpa using hd
+    have : mustAllow a resource want = false := by
+      cases hm : mustAllow a resource want with
+      | false => rfl
+      | true => exact absurd (hb.2 hm) hne
+    simp [this]
+
+/-- **A nearer grant wins over a farther one**: when the node itself carries a grant, that grant alone decides,
+whatever its ancestors carry. -/
+theorem nearer_grant_wins (a : Account) (resource : Path) (n : Node) (ps : List Nat) (want : Nat)
+    (hn : nodeOf resource = some n) (hg : grantAt a.grants n = some ps)
+    (h0 : ¬ (want = noPriv ∨ a.admin = true)) :
+    authorizeAction a.user resource want = if authorized (orMask ps) want then .allow else .deny := by
+  rw [nearest_grant_only, if_neg h0, hn]
+  have : nearestGrant a.grants n = some (n, ps) := by
+    unfold nearestGrant ancestors
+    rw [List.range_succ]
+    simp [hg]
+  simp only [this]
+
+/-- … concretely: `all` on /a does not help below /a/b when /a/b carries only `read` (and `read` on a nearer
+node is enough although the farther one grants nothing useful). -/
+theorem nearer_grant_wins_example :
+    let acc : Account := { grants := [("/a".toList, [16]), ("/a/b".toList, [2]), ("/".toList, [8])] }
+    authorizeAction acc.user "/a/b/c".toList 4 = .deny ∧ authorizeAction acc.user "/a/x".toList 4 = .allow ∧
+    authorizeAction acc.user "/a/b/../b//c/.".toList 2 = .allow ∧ authorizeAction acc.user "/a/b/../../c".toList 4 = .deny ∧
+    authorizeAction acc.user "/a/bc".toList 4 = .allow ∧ authorizeAction acc.user "/a/b/../../c".toList 8 = .allow := by
+  decide
+
+/-- **Admin / NoPrivileges / relative resources.** -/
+theorem admin_and_noprivilege_cases (u : User) (resource : Path) (want : Nat) :
+    (want = noPriv → authorizeAction u resource want = .allow) ∧
+    (u.admin = true → authorizeAction u resource want = .allow) ∧
+    (want ≠ noPriv → u.admin = false → isAbs resource = false → authorizeAction u resource want = .invalid) ∧
+    (want ≠ noPriv → u.admin = false → u.privs = [] → isAbs resource = true → authorizeAction u resource want = .deny) := by
+  unfold authorizeAction
+  refine ⟨fun h => by simp [h], fun h => by simp [h], fun h1 h2 h3 => by simp [h1, h2, h3], fun h1 h2 h3 h4 => by simp [h1, h2, h3, h4]⟩
+
+/-- The unbounded `for` loop of `AuthorizeAction` always ends (the model's fuel is never exhausted). -/
+theorem authorize_never_diverges (a : Account) (resource : Path) (want : Nat) :
+    authorizeAction a.user resource want ≠ .diverge := by
+  rw [nearest_grant_only]
+  repeat' split
+  all_goals simp
+
+/-! ### HTTP -/
+
+/-- `parseCredentials` only produces the three declared authentication methods, so the `default:` clause of
+`authenticate` (which writes a 401 but does NOT return) cannot be reached. -/
+theorem default_clause_unreachable (a : ReqAuth) (c : Creds) (h : parseCredentials a = some c) : c.method ≠ .other :=
+  parseCredentials_method a c h
+
+/-- … which matters, because as the clause stands (regenerated flag `Gen.authDefaultReturns`), reaching it would
+run the inner handler as the zero user — and a HEAD request needs no privilege. Latent, not a violation. -/
+theorem default_clause_would_fall_through :
+    Gen.authDefaultReturns = false ∧
+    authenticateCreds {} { method := .other } = .inner {} true ∧
+    authorizeRequest "HEAD".toList "/kapacitor/v1/ping".toList {} = true := by
+  decide
+
+/-- **unauthenticated_never_served**: with authentication enabled, whenever a route handler ran or points were
+written, the request presented valid credentials (password, bearer token or subscription token) for an account
+of the auth service, and the URL path was not a path trick (the mux redirects those). Any route table whose
+extra routes are ordinary handlers; any fuel. -/
+theorem unauthenticated_never_served (cfg : Cfg) (hauth : cfg.requireAuth = true)
+    (hextra : ∀ r ∈ cfg.extra, r.kind = .recorder) (fuel : Nat) (req : Req)
+    (h : (serveHTTP cfg fuel req).served = true ∨ (serveHTTP cfg fuel req).wrote = true) :
+    validAccounts cfg.svc req.auth ≠ [] ∧ muxCleanPath req.path = req.path := by
+  obtain ⟨hcp, _, acc, w, hau, _, _⟩ := serveHTTP_sound cfg hextra fuel req _ rfl h
+  rw [hauth] at hau
+  have := (authenticate_valid cfg.svc req.auth acc w hau).2
+  refine ⟨?_, hcp⟩
+  intro e
+  rw [e] at this
+  cases this
+
+/-- **served ⇒ authorised**: … and that account may perform the method on the API resource of the URL path
+according to the statement (`Spec.servedOK`, the very oracle the driver evaluates on the real handler). -/
+theorem served_only_if_authorised (cfg : Cfg) (hextra : ∀ r ∈ cfg.extra, r.kind = .recorder) (req : Req)
+    (hv : ∀ acc ∈ validAccounts cfg.svc req.auth, ∀ g ∈ acc.grants, g.2.all validPriv = true)
+    (fuel : Nat)
+    (h : (serveHTTP cfg fuel req).served = true ∨ (serveHTTP cfg fuel req).wrote = true) :
+    servedOK cfg.requireAuth cfg.svc req = true := by
+  obtain ⟨_, hm, acc, w, hau, haz, _⟩ := serveHTTP_sound cfg hextra fuel req _ rfl h
+  unfold servedOK
+  cases hra : cfg.requireAuth with
+  | false => simp
+  | true =>
+    rw [hra] at hau
+    have hmem := (authenticate_valid cfg.svc req.auth acc w hau).2
+    simp only [Bool.not_true, Bool.false_or]
+    unfold authorizeRequest at haz
+    cases hr : requiredPrivilege req.method with
+    | priv p =>
+      rw [hr] at haz
+      simp only [decide_eq_true_eq] at haz
+      obtain ⟨p', hp1, hp2, hp3⟩ := requiredPrivilege_spec req.method hm
+      rw [hr] at hp1; injection hp1 with hp1; subst hp1
+      rw [hp2]
+      simp only [List.any_eq_true]
+      refine ⟨acc, hmem, ?_⟩
+      rw [← mayAllow_congr acc _ _ p (apiResource_node req.path)]
+      exact allow_mayAllow acc _ p (hv acc hmem) hp3 haz
+    | unknownMethod => rw [hr] at haz; cases haz
+    | unrecognised => rw [hr] at haz; cases haz
+
+/-- **write_checks_database**: points are written only if the same valid account holds `write` on the API
+resource of the URL path AND on the resource of the target database (`Spec.wroteOK`). -/
+theorem write_checks_database (cfg : Cfg) (hextra : ∀ r ∈ cfg.extra, r.kind = .recorder) (req : Req)
+    (hv : ∀ acc ∈ validAccounts cfg.svc req.auth, ∀ g ∈ acc.grants, g.2.all validPriv = true)
+    (fuel : Nat) (h : (serveHTTP cfg fuel req).wrote = true) :
+    wroteOK databaseResource cfg.requireAuth cfg.svc req = true := by
+  obtain ⟨_, _, acc, w, hau, haz, hw⟩ := serveHTTP_sound cfg hextra fuel req _ rfl (Or.inr h)
+  obtain ⟨hpost, hdb⟩ := hw h
+  unfold wroteOK
+  cases hra : cfg.requireAuth with
+  | false => simp
+  | true =>
+    rw [hra] at hau
+    have hmem := (authenticate_valid cfg.svc req.auth acc w hau).2
+    simp only [Bool.not_true, Bool.false_or, List.any_eq_true, Bool.and_eq_true]
+    refine ⟨acc, hmem, ?_, ?_⟩
+    · unfold authorizeRequest at haz
+      rw [hpost] at haz
+      have : requiredPrivilege "POST".toList = .priv 4 := by decide
+      rw [this] at haz
+      simp only [decide_eq_true_eq] at haz
+      rw [← mayAllow_congr acc _ _ pWrite (apiResource_node req.path)]
+      exact allow_mayAllow acc _ 4 (hv acc hmem) (by decide) haz
+    · exact allow_mayAllow acc _ 4 (hv acc hmem) (by decide) hdb
+
+/-! ### Database resources -/
+
+/-- FULL statement of the last clause (stated, not provable: it is false of the code). -/
+def database_resource_injective_stmt : Prop := DbInjective databaseResource
+
+/-- Counterexample (finding `db-collision`, replayed on the real code by corpus/C20/finding-db-collision.ops). -/
+theorem database_resource_not_injective : ¬ DbInjective databaseResource := by
+  intro h
+  have := h "a/b_".toList "a_b/".toList (by decide)
+  revert this; decide
+
+/-- **The collisions are exactly the recorded deviation**: two names map to the same resource iff they are
+equal or satisfy `Dev_db_collision` (both contain '/', and they agree after '/' ↦ '_'). Nothing else collides
+— in particular "" (the root), names without '/', and a clean name against a dirty one never do. -/
+theorem database_resource_collisions_exactly (a b : List Char) :
+    databaseResource a = databaseResource b ↔ a = b ∨ Dev_db_collision a b = true :=
+  databaseResource_eq_iff a b
+
+/-- `database_resource_injective_partial`: injective on every pair in which at least one name has no '/'.
+Missing for the full statement: pairs of names that both contain '/' (where it is false). -/
+theorem database_resource_injective_partial (a b : List Char) (hex : ¬ ('/' ∈ a ∧ '/' ∈ b))
+    (h : databaseResource a = databaseResource b) : a = b := by
+  rcases (databaseResource_eq_iff a b).mp h with h | h
+  · exact h
+  · rw [dev_iff] at h
+    exact absurd ⟨h.2.1, h.2.2.1⟩ hex
+
+/-- A database is exactly ONE element below "/database", whatever its name contains ('/', "..", …): a
+database grant can never reach another subtree. -/
+theorem database_resource_single_element (d : List Char) (h : d ≠ []) :
+    ∃ elem, nodeOf (databaseResource d) = some ["database".toList, elem] :=
+  ⟨_, databaseResource_node d h⟩
+
+/-! ### Non-vacuity -/
+
+-- path tricks: different spellings, same node, hypotheses of `path_tricks_never_widen` met non-trivially
+example : nodeOf "/a/b/../c//".toList = nodeOf "/a/./c".toList ∧ "/a/b/../c//".toList ≠ "/a/./c".toList ∧
+    nodeOf "/a/b/../c//".toList = some ["a".toList, "c".toList] := by decide
+
+-- `decision_within_bounds` / `served_only_if_authorised`: a well-formed table, a valid privilege
+example : let acc : Account := { grants := [("/api/tasks".toList, [2, 4]), ("/api".toList, [16, 2])] }
+    (∀ g ∈ acc.grants, g.2.all validPriv = true) ∧ validPriv 4 = true ∧
+    mustAllow acc "/api/tasks/x".toList 4 = true ∧ mayAllow acc "/api/tasks/x".toList 8 = false ∧
+    -- the gap between the bounds: `all` listed together with another privilege
+    mayAllow acc "/api/other".toList 4 = true ∧ mustAllow acc "/api/other".toList 4 = false ∧
+    authorizeAction acc.user "/api/other".toList 4 = .deny := by decide
+
+-- `unauthenticated_never_served` / `write_checks_database`: a request that IS served and one that writes
+example :
+    let alice : Account := { grants := [("/api".toList, [2, 4]), ("/database/db_clean".toList, [4])] }
+    let cfg : Cfg := { requireAuth := true, svc := { users := [("alice".toList, "pw".toList, alice)] },
+                       extra := [⟨"GET".toList, "/kapacitor/v1/tasks".toList, .recorder⟩] }
+    let cred : ReqAuth := { header := .basic "alice".toList "pw".toList }
+    (∀ r ∈ cfg.extra, r.kind = .recorder) ∧
+    (serveHTTP cfg 2 { method := "GET".toList, path := "/kapacitor/v1/tasks".toList, auth := cred }).served = true ∧
+    (serveHTTP cfg 2 { method := "POST".toList, path := "/kapacitor/v1/write".toList, auth := cred, db := "db".toList }).wrote = true ∧
+    (serveHTTP cfg 2 { method := "POST".toList, path := "/kapacitor/v1/write".toList, auth := cred, db := "other".toList }).status = 401 ∧
+    (serveHTTP cfg 2 { method := "POST".toList, path := "/kapacitor/v1preview/write".toList, auth := cred, db := "db".toList }).wrote = true ∧
+    (serveHTTP cfg 2 { method := "GET".toList, path := "/kapacitor/v1/tasks".toList }).status = 401 := by
+  decide
+
+-- `database_resource_injective_partial`: its hypothesis holds for ordinary names
+example : ¬ ('/' ∈ "telegraf".toList ∧ '/' ∈ "a/b".toList) := by decide
+example : Dev_db_collision "a/b_".toList "a_b/".toList = true ∧ Dev_db_collision "a/b".toList "a_b".toList = false := by decide
 
 end Kap.Props.C20
